@@ -263,3 +263,200 @@ def check_c02(world):
                              f'{fd["o"]} which is not a source of {nid}', step, now, shape=sc['shape']))
     return out
 
+
+
+def check_c03(world):
+    """Per-filter input sequence == functional reference model; deferred callables evaluated only when sent."""
+    from . import model
+    sc = world.sc
+    out = []
+    stats = world.ostats
+    exp_inputs, exp_pub = model.evaluate(sc)
+    conclusive = world.stop_reason in ('settled', 'quiescent')
+    for nid, exp in exp_inputs.items():
+        obs = model.observed_inputs(world, nid)
+        stats['c03_sequences'] += 1
+        stats['c03_sets_expected'] += len(exp)
+        n = min(len(obs), len(exp))
+        bad = None
+        for i in range(n):
+            if obs[i] != exp[i]:
+                bad = i
+                break
+        if bad is not None:
+            out.append(V('C03', 'sequence_mismatch',
+                         f'{nid}: process() call {bad} got {_fmt_set(obs[bad])} but the composition of the upstream '
+                         f'process functions yields {_fmt_set(exp[bad])} (expected {len(exp)} sets, observed {len(obs)})',
+                         None, None, shape=sc['shape']))
+            continue
+        if len(obs) > len(exp):
+            out.append(V('C03', 'extra_sets', f'{nid}: observed {len(obs)} sets, model has {len(exp)}; first extra: '
+                         f'{_fmt_set(obs[len(exp)])}', None, None, shape=sc['shape']))
+        elif len(obs) < len(exp):
+            if conclusive:
+                out.append(V('C03', 'frames_lost',
+                             f'{nid}: received only {len(obs)} of {len(exp)} sets and the pipeline went quiet '
+                             f'({world.stop_reason}); next expected: {_fmt_set(exp[len(obs)])}', None, None,
+                             shape=sc['shape']))
+            else:
+                stats['c03_inconclusive'] += 1
+    # deferred results: evaluated once, at the moment of sending, never without a following publish or None
+    made = {}
+    calls = {}
+    pubs_at = {}
+    for e in world.events:
+        if e[0] == 'deferred_made':
+            made[(e[3], e[4], e[5])] = e[1]
+        elif e[0] == 'deferred_call':
+            calls.setdefault((e[3], e[4], e[5]), []).append((e[1], e[2]))
+        elif e[0] == 'pub':
+            pubs_at.setdefault(e[3], []).append((e[1], e[2]))
+    last_made = {}
+    for (nid, inc, k) in made:
+        last_made[(nid, inc)] = max(last_made.get((nid, inc), -1), k)
+    for key, mstep in made.items():
+        nid, inc, k = key
+        cs = calls.get(key, [])
+        stats['c03_deferred'] += 1
+        if len(cs) > 1:
+            out.append(V('C03', 'deferred_twice', f'{nid}: deferred result of call {k} evaluated {len(cs)} times',
+                         cs[1][0], cs[1][1], shape=sc['shape']))
+        elif not cs:
+            if k != last_made[(nid, inc)] and sc['nodes'][nid].get('has_output', True) and conclusive:
+                out.append(V('C03', 'deferred_never', f'{nid}: deferred result of call {k} never evaluated although '
+                             f'later results were', None, None, shape=sc['shape']))
+        else:
+            step, now = cs[0]
+            spec = sc['nodes'][nid]
+            if not spec.get('has_output', True):
+                continue
+            nxt = [p for p in pubs_at.get(f'{nid}#{inc}', []) if p[0] > step]
+            kkey = None
+            if nxt and nxt[0][1] != now:
+                # the callable may legitimately have returned None (defer_none): then no publish belongs to it
+                if not spec.get('defer_none'):
+                    out.append(V('C03', 'deferred_early', f'{nid}: deferred result of call {k} evaluated at '
+                                 f'{(now - EPOCH_NS) / 1e9:.6f}s but published at {(nxt[0][1] - EPOCH_NS) / 1e9:.6f}s',
+                                 step, now, shape=sc['shape']))
+    return out
+
+
+def _fmt_set(s):
+    return '{' + ', '.join(f'{t}: {o}#{n} {list(r)}' for t, (o, n, r) in sorted(s.items())) + '}'
+
+
+def check_c07(world):
+    """Balanced outputs: each id leaves through exactly one output; balanced rejoin: single-source sets, strictly
+    increasing ids, no frame twice."""
+    sc = world.sc
+    out = []
+    stats = world.ostats
+    for (owner, mid), rec in world.pubs.items():
+        nid = owner.split('#')[0]
+        if not sc['nodes'].get(nid, {}).get('outputs_balance'):
+            continue
+        stats['c07_balanced_publishes'] += 1
+        if len(rec['socks']) != 1:
+            out.append(V('C07', 'multi_branch', f'{owner}: id {mid} left through {len(rec["socks"])} outputs '
+                         f'(sockets {rec["socks"]})', rec['step0'], rec['t0'], shape=sc['shape']))
+    last = {}
+    seen = {}
+    for e in world.events:
+        if e[0] != 'in':
+            continue
+        _, step, now, nid, inc, k, claimed, desc = e
+        if not sc['nodes'][nid].get('sources_balance'):
+            continue
+        stats['c07_rejoin_sets'] += 1
+        by_src, un = attribute_set(world, nid, desc)
+        srcs = [s for s, lst in by_src.items() if lst]
+        if len(srcs) > 1:
+            out.append(V('C07', 'mixed_sources', f'{nid}#{inc} call {k}: set combines frames of {srcs}', step, now,
+                         shape=sc['shape']))
+        mids = set()
+        roots = set()
+        for s in srcs:
+            for topic, fd, pub in by_src[s]:
+                if pub is not None:
+                    mids.add(pub[1])
+                roots.update(fd['r'])
+                tk = (nid, fd['tok'])
+                if tk in seen:
+                    out.append(V('C07', 'frame_twice', f'{nid}#{inc} call {k}: frame tok={fd["tok"]} of {s} delivered twice',
+                                 step, now, shape=sc['shape']))
+                seen[tk] = 1
+        if len(mids) > 1:
+            out.append(V('C07', 'mixed_ids', f'{nid}#{inc} call {k}: ids {sorted(mids)} in one set', step, now,
+                         shape=sc['shape']))
+        if len(mids) == 1:
+            mid = next(iter(mids))
+            prev = last.get((nid, inc))
+            if prev is not None and mid <= prev:
+                out.append(V('C07', 'order', f'{nid}#{inc} call {k}: id {mid} delivered after id {prev}', step, now,
+                             shape=sc['shape']))
+            last[(nid, inc)] = mid
+    return out
+
+
+def check_c04(world):
+    """While a synchronized consumer c sends no requests to its publisher p (it stopped taking frames), p publishes at
+    most (requests of c it still dequeues) + 1 further frames, single digits in absolute terms, until c has been silent
+    for the connection timeout (what a publisher does after that when c is a *required* output belongs to C06)."""
+    sc = world.sc
+    out = []
+    stats = world.ostats
+    conn_to = (sc.get('knobs') or {}).get('ZMQ_CONN_TIMEOUT', 5000) * 1_000_000
+    end = world.final_now
+    GAP = 1_000_000_000
+    pushes = {}    # (c key, p nid) -> [t]
+    for r in world.reqs:
+        step, now, ckey, sid, mid, eph, new, how, pnid = r
+        if eph or pnid is None or mid is None or mid < -1:
+            continue
+        pushes.setdefault((ckey, pnid), []).append(now)
+    deqs = {}      # (p key, c key) -> [t]
+    handshake = (sc.get('knobs') or {}).get('ZMQ_CONN_HANDSHAKE', True)
+    for e in world.events:
+        # a request flagged 'new' does not register the client while the handshake is on
+        if e[0] == 'pullrecv' and not e[6] and e[5] is not None and e[5] >= -1 and not (e[7] and handshake):
+            deqs.setdefault((e[3], e[4]), []).append(e[2])
+    pubs_by = {}   # p key -> [(t0, mid)]
+    for (owner, mid), rec in world.pubs.items():
+        pubs_by.setdefault(owner, []).append((rec['t0'], mid))
+    for (ckey, pnid), ts in pushes.items():
+        cnid = ckey.split('#')[0]
+        cspec = sc['nodes'][cnid]
+        src = next((s for s in cspec.get('sources') or [] if s['from'] == pnid), None)
+        if src is None or src.get('eph'):
+            continue
+        pproc = world.procs[pnid][-1]
+        pkey = pproc.key
+        req = sc['nodes'][pnid].get('outputs_required') or []
+        if isinstance(req, str):
+            req = [x.strip() for x in req.split(',')]
+        required = cnid in req
+        ts = sorted(ts)
+        bounds = ts + [end]
+        for a, b in zip(bounds, bounds[1:]):
+            if b - a <= GAP:
+                continue
+            # p is constrained by c from the moment it dequeues c's last request (c is then in p's client table with
+            # its mark set) until c has been silent for the connection timeout
+            a0 = min((t for t in deqs.get((pkey, ckey), []) if t >= a), default=None)
+            if a0 is None or a0 >= b:
+                continue
+            stats['c04_intervals'] += 1
+            a = a0
+            w_end = min(b, a + conn_to)
+            hi = w_end       # the statement lets p go on once c has been silent for the connection timeout
+            n_pub = sum(1 for (t, m) in pubs_by.get(pkey, []) if a < t < hi)
+            n_deq = sum(1 for t in deqs.get((pkey, ckey), []) if a < t < hi)
+            stats['c04_max_pubs_in_stall'] = max(stats['c04_max_pubs_in_stall'], n_pub)
+            if b - a > 10 * GAP:
+                stats['c04_long_stalls'] += 1
+            if n_pub > n_deq + 1 or n_pub > 9:
+                out.append(V('C04', 'unbounded_publish',
+                             f'{pkey} published {n_pub} frames while its synchronized consumer {ckey} sent no request '
+                             f'for {(b - a) / 1e9:.1f}s (window {(hi - a) / 1e9:.1f}s, requests still dequeued {n_deq}, '
+                             f'required={required})', None, a, shape=sc['shape'], required=required))
+    return out
